@@ -26,6 +26,16 @@ Fixpoint py_prefixb (p s : list Z) : bool :=
 Definition py_startswith (s p : list Z) : bool := py_prefixb p s.
 Definition py_endswith (s p : list Z) : bool := py_prefixb (rev p) (rev s).
 
+(* s.lstrip(chars): drop leading characters that occur in chars *)
+Fixpoint py_lstrip (s chars : list Z) : list Z :=
+  match s with
+  | c :: r => if existsb (Z.eqb c) chars then py_lstrip r chars else s
+  | [] => []
+  end.
+
+(* os.path.isabs on POSIX (posixpath.isabs): s.startswith('/') *)
+Definition py_posix_isabs (s : list Z) : bool := py_startswith s [47].
+
 (* l.pop() as a statement (the element is discarded): IndexError on the empty list *)
 Definition py_pop_ {A} (l : list A) : res (list A) :=
   match l with [] => Err EOther | _ :: _ => Ok (removelast l) end.
